@@ -11,7 +11,8 @@ RULE = ('operator configurations drawn per class by harness/opzoo.py (shapes, di
         'out-of-range/permuted samples, stencil and pad modes, einsum rules, wavelet families, interpolation modes) and random expression '
         'trees over @ + * .H; for each the dense forward and adjoint matrices are taken from basis vectors (complex128). Non-trivial = '
         'dense size >= 2 in domain and range; distinct by configuration hash.')
-TRUSTED_BASE = ['torch kernels (F.pad, take_along_dim, scatter_add_, conv1d, einsum, fft), einops, ptwt, torchkbnufft, aten grid_sampler: '
+TRUSTED_BASE = ['translator harness/translate/linop.py (ast -> Gallina for the adjoint methods and gram rules of LinearOperator.py; fail-closed)',
+                'torch kernels (F.pad, take_along_dim, scatter_add_, conv1d, einsum, fft), einops, ptwt, torchkbnufft, aten grid_sampler: '
                 'oracles whose contract as used by mrpro is what the models state and what the correspondence validates',
                 'wavelet / FFT / NUFFT / grid sampling / slice projection / PCA: adjointness decided on the implementation by the dense '
                 'identity G = F^H (no Coq model of third-party numerics); FFT has a Coq model under C03']
@@ -298,6 +299,28 @@ def oracle_fourier_op(c, o):
 
 
 TOL['FourierOp'] = 1e-6   # torchkbnufft's interpolation pair is an exact adjoint pair up to rounding (measured 3e-15 .. 3e-9); a wrong kernel gives >= 4e-4
+
+
+def translate(ctx):
+    """Regenerate Gen/linop_gen.v from LinearOperator.py (adjoint methods and gram rules of the combinator classes) and re-check
+    the obligations that tie them to Model/OpAlg.v and Model/Algebra.v."""
+    from translate import linop
+    out = vlib.COQ / 'Gen' / 'linop_gen.v'
+    out.parent.mkdir(exist_ok=True)
+    ok, why = linop.write(out)
+    ctx.extra.setdefault('coverage', {})['translator_available'] = ok
+    if not ok:
+        ctx.notes.append(f'translator harness/translate/linop.py failed closed ({why}); the combinators rest on correspondence alone in this run')
+        ctx.problem('proof', 'gen_linop', None, f'LinearOperator.py is outside the translated subset ({why}): the regenerated obligations cannot be stated')
+        return
+    ctx.obligations += linop.N_OBLIGATIONS
+    rc, so, se = vlib.coqc_file(out)
+    if rc == 0:
+        ctx.discharged += linop.N_OBLIGATIONS
+    else:
+        ctx.problem('proof', 'gen_linop', None,
+                    'regenerated obligation gen_*_ok (adjoint/gram of the combinator classes == model) no longer proves: ' + (se or so)[-700:])
+
 
 FAMILIES = [
     Family('fourier_op_adjoint', gen_fourier_ops, impl_fourier_op, None, '', None, oracle_fourier_op,
